@@ -610,3 +610,17 @@ package compiler
 //@   property C06
 //@   requires pass != nil && visitor != nil && schema != nil && def.Kind == ast.KindDisjunction
 //@   ensures  leaf: result.1 == nil ==> result.0.Kind == ast.KindScalar || result.0.Kind == ast.KindRef
+//
+// duplicate_object: for schemas of the target package, when the source object exists, an object is
+// registered under the new name whose type is a DEEP copy of the source's type (faithful, and sharing no
+// pointer, backing array or map with it - otherwise a later in-place pass would rewrite both); schemas of
+// other packages, and a source that does not exist, leave everything as it was.
+//@ func (*DuplicateObject).processSchema
+//@   property C15 C05
+//@   requires pass != nil && schema != nil && visitor != nil && wf(visitor.newObjects)
+//@   modifies visitor.newObjects.order, visitor.newObjects.records[*], visitor.newObjects.order[*], spare-capacity
+//@   ensures  same: result.0 == schema && result.1 == nil
+//@   ensures  otherpkg: schema.Package != pass.As.Package ==> len(visitor.newObjects.order) == old(len(visitor.newObjects.order)) && (forall k: string :: visitor.newObjects.records.has(k) == old(visitor.newObjects.records.has(k)))
+//@   ensures  nosource: !old(call("ast.Schemas.LocateObject", pass.schemas, pass.Object.Package, pass.Object.Object).1) ==> len(visitor.newObjects.order) == old(len(visitor.newObjects.order)) && (forall k: string :: visitor.newObjects.records.has(k) == old(visitor.newObjects.records.has(k)))
+//@   ensures  registered: old(schema.Package == pass.As.Package && call("ast.Schemas.LocateObject", pass.schemas, pass.Object.Package, pass.Object.Object).1) ==> visitor.newObjects.records.has(refKey(pass.As.Package, pass.As.Object)) && visitor.newObjects.records[refKey(pass.As.Package, pass.As.Object)].Name == pass.As.Object && visitor.newObjects.records[refKey(pass.As.Package, pass.As.Object)].SelfRef.ReferredPkg == pass.As.Package && visitor.newObjects.records[refKey(pass.As.Package, pass.As.Object)].SelfRef.ReferredType == pass.As.Object
+//@   ensures  deepcopy: old(schema.Package == pass.As.Package && call("ast.Schemas.LocateObject", pass.schemas, pass.Object.Package, pass.Object.Object).1 && (call("ast.Schemas.LocateObject", pass.schemas, pass.Object.Package, pass.Object.Object).0.Type.Kind != ast.KindStruct || len(pass.OmitFields) == 0)) ==> copyrel(old(call("ast.Schemas.LocateObject", pass.schemas, pass.Object.Package, pass.Object.Object).0.Type), visitor.newObjects.records[refKey(pass.As.Package, pass.As.Object)].Type)
